@@ -4,6 +4,7 @@ import (
 	"fmt"
 	"os"
 	"reflect"
+	"regexp"
 	"sort"
 	"testing"
 
@@ -60,7 +61,7 @@ func (c MarshDyn) Marshal(conf *confmap.Conf) error {
 	m := map[string]any{"default": c.A}
 	rv := reflect.ValueOf(c.B)
 	switch {
-	case rv.IsValid() && rv.Kind() == reflect.Map && rv.Type().Key() == tString:
+	case dynKeyed(rv):
 		for it := rv.MapRange(); it.Next(); {
 			m["tenant/"+it.Key().String()] = it.Value().Interface()
 		}
@@ -73,6 +74,23 @@ func (c MarshDyn) Marshal(conf *confmap.Conf) error {
 	}
 	return conf.Merge(confmap.NewFromStringMap(m))
 }
+
+// dynKeyed: a non-empty map with the generated plain-string keys k<i> / h<i>.
+// (The marker model replaces a map keyed by opaque strings by a map[string]T
+// whose keys are the marker: both must take the same branch of Marshal.)
+func dynKeyed(rv reflect.Value) bool {
+	if !rv.IsValid() || rv.Kind() != reflect.Map || rv.Type().Key() != tString || rv.Len() == 0 {
+		return false
+	}
+	for it := rv.MapRange(); it.Next(); {
+		if !reDynKey.MatchString(it.Key().String()) {
+			return false
+		}
+	}
+	return true
+}
+
+var reDynKey = regexp.MustCompile(`^[kh][0-9]+$`)
 
 type marshBody struct {
 	A any `mapstructure:"a"`
